@@ -44,6 +44,13 @@ fn info_variants() -> Vec<(&'static str, Vec<u8>)> {
         ("leading-zero-lengths", cat(&[b"d06:lengthi5e004:name01:n12:piece lengthi5e6:pieces0", &p, b"e"])),
         ("multi-file", cat(&[b"d5:filesld6:lengthi2e4:path1:aed6:lengthi3e4:path1:bee4:name1:n12:piece lengthi5e6:pieces", &p, b"e"])),
         ("nested-info-inside-info", cat(&[b"d4:infoi9e6:lengthi5e4:name1:n12:piece lengthi5e6:pieces", &p, b"e"])),
+        // zero-padded string lengths in front of contents that end in as many 'e' bytes as there
+        // are padding zeros (a walker that measures the string from its parsed length instead of
+        // its written form would end it early and take those bytes for terminators)
+        ("padded-name-ending-in-e", cat(&[b"d6:lengthi5e4:name05:movie12:piece lengthi5e6:pieces", &p, b"e"])),
+        ("double-padded-name-ending-in-ee", cat(&[b"d6:lengthi5e4:name004:free12:piece lengthi5e6:pieces", &p, b"e"])),
+        ("padded-pieces-ending-in-e", cat(&[b"d6:lengthi5e4:name1:n12:piece lengthi5e6:pieces020:", &pieces20()[..19], b"e", b"e"])),
+        ("padded-path-ending-in-e", cat(&[b"d5:filesld6:lengthi2e4:pathl03:oneeed6:lengthi3e4:pathl1:beee4:name1:n12:piece lengthi5e6:pieces", &p, b"e"])),
     ]
 }
 
@@ -297,7 +304,7 @@ pub fn run(ctx: &Ctx) -> Outcome {
     o.set("distinct_nontrivial", json!(accepted));
     o.set("accepted", json!(accepted));
     o.set("rejected", json!(rejected));
-    o.set("rule", json!("documents = one top-level dictionary {announce, any subset of the keys a/comment/infoo/z each with one of 7 value shapes (the string info itself in two length spellings, a string spelled 4:info, 3 containers with a nested key spelled info), info} in 4 key orders (sorted, reversed, info first, info last) x 6 info dictionaries (canonical, reversed keys, extra keys incl. a nested info key, leading-zero string lengths, multi-file, info key inside info) x info key spelled 4:info or 04:info x 4 trailers after the dictionary x (for one sibling-shape combination per key subset) 6 leaders in front of it: nothing, non-dictionary values, decoy dictionaries without announce but with a top-level info key; plus the same family without announce (every one must be rejected); plus documents with the info key twice (6x6 info values, 3 separators, both orders). All documents are distinct byte strings; non-trivial = accepted by Metainfo::from_bencode, for which the hash is compared."));
+    o.set("rule", json!("documents = one top-level dictionary {announce, any subset of the keys a/comment/infoo/z each with one of 7 value shapes (the string info itself in two length spellings, a string spelled 4:info, 3 containers with a nested key spelled info), info} in 4 key orders (sorted, reversed, info first, info last) x 10 info dictionaries (canonical, reversed keys, extra keys incl. a nested info key, leading-zero string lengths, multi-file, info key inside info, and four with zero-padded lengths in front of a name / pieces string / path that ends in 'e' bytes) x info key spelled 4:info or 04:info x 4 trailers after the dictionary x (for one sibling-shape combination per key subset) 6 leaders in front of it: nothing, non-dictionary values, decoy dictionaries without announce but with a top-level info key; plus the same family without announce (every one must be rejected); plus documents with the info key twice (info values pairwise, 3 separators, both orders). All documents are distinct byte strings; non-trivial = accepted by Metainfo::from_bencode, for which the hash is compared."));
     if (accepted as f64) < 0.4 * docs.len() as f64 {
         ctx.machinery_error(format!("vacuity: only {} of {} documents accepted", accepted, docs.len()));
     }
